@@ -257,6 +257,21 @@ def check_schnorr(c, key, msg, full_bits):
         for vb in ("py", "ct"):
             if embit_schnorr_verify(vb, xonly, sig, m) is not True:
                 c.fail("valid schnorr signature does not verify under backend " + vb, info)
+            # through the key objects themselves (the public key of an arbitrary private key may have odd Y)
+            use(vb)
+
+            def g():
+                pk = ec.PrivateKey(sk)
+                pub = pk.get_public_key()
+                pub2 = ec.PublicKey.parse(pub.sec())
+                return (pk.schnorr_verify(s1, m), pub.schnorr_verify(s1, m), pub2.schnorr_verify(s1, m), pub.sec()[0])
+            r = guarded(g)
+            if r in ("none", "timeout") or not (r[0] is True and r[1] is True and r[2] is True):
+                c.fail("valid schnorr signature does not verify through PrivateKey/PublicKey.schnorr_verify (backend %s)" % vb,
+                       dict(info, verify_backend=vb, result=str(r)))
+            else:
+                c.tally("schnorr:key-prefix-%02x" % r[3])
+        use(backend)
         back = guarded(lambda: ec.SchnorrSig.parse(s1.serialize()))
         if back in ("none", "timeout") or back._sig != sig:
             c.fail("SchnorrSig does not survive serialise/parse", info)
@@ -320,6 +335,34 @@ def kf_negated_key_z0(rec):
         return False
 
 
+def light_sweep(c, n):
+    """many random (key, message) pairs on both backends: the signature must be strict DER (the proved-strict parser
+    returns the same pair and the BIP66 encoder the same bytes) and verify under the independent verifier"""
+    rng = c.rng
+    for i in range(n):
+        k, mm = rng.randrange(1, N), rng.randrange(2**256)
+        sk, m = be(k), be(mm)
+        for backend in ("py", "ct"):
+            use(backend)
+            out = guarded(lambda: (lambda pk: (pk.sign(m, grind=False), pk.sec()))(ec.PrivateKey(sk)))
+            info = {"key": hex(k), "msg": hex(mm), "backend": backend, "op": "priv.sign.light"}
+            c.count(("light", backend, k, mm), nontrivial=True)
+            if out in ("none", "timeout"):
+                c.fail("signing a valid key / 32-byte message failed (%s)" % out, info)
+                continue
+            s1, sec = out
+            der = s1.serialize()
+            r, s_ = rs_of(s1._sig)
+            c.tally("light:rlen%d/slen%d" % ((r.bit_length() + 7) // 8, (s_.bit_length() + 7) // 8))
+            c.expect("der.spec %d %d" % (r, s_), "ok " + hx(der), dict(info, tie="BIP66 encoder"), proven=True, op="der.spec")
+            c.expect("sig.ecdsa %s %s %s" % (hx(sec), hx(m), hx(der)), "valid", dict(info, tie="independent verifier"),
+                     proven=True, op="sig.ecdsa")
+        if i % 50 == 49:
+            c.flush()
+    c.flush()
+    use("ct")
+
+
 def explore(c, nkeys, nfull, nschnorr):
     odd = odd_y_keys()
     rng = c.rng
@@ -370,8 +413,10 @@ def run(tier, seed):
     corpus(c)
     if tier == "quick":
         explore(c, nkeys=6, nfull=2, nschnorr=4)
+        light_sweep(c, 250)
     else:
         explore(c, nkeys=120, nfull=24, nschnorr=60)
+        light_sweep(c, 6000)
     use("ct")
     return c.finish(search=lambda cc: explore(cc, 12, 3, 6))
 
